@@ -377,7 +377,12 @@ func narrowTable(c *core.Ctx, fn *ssa.Function, maxLen int) (rs rows, runs int, 
 							return
 						}
 						if isErr {
-							rs.fail("single-member", "error although a candidate qualifies: "+w)
+							if fieldKind == 23 {
+								rs.hit("slice-exact")
+								rs.fail("slice-exact", "error although candidates qualify: "+w)
+							} else {
+								rs.fail("single-member", "error although a candidate qualifies: "+w)
+							}
 							return
 						}
 						if fieldKind == 23 {
